@@ -31,3 +31,30 @@ claim("C13", "Range prover domain/no-panic by intervals for all i64, verifier ex
 claim("C17", "Totality of balance/amount arithmetic by interval + octagon abstract interpretation for all 64-bit inputs, exact Ok/Err regions decided in the octagon domain, exact linear value forms, invariant establishment at every construction site (decoders included).",
       "Decides: no reachable overflow/abs/cast/unwrap panic; Ok exactly on [0,2^63-1] with the exact result; encoding is the ring map. Uses the Balance invariant only because every construction site is shown to establish it.",
       "interval + octagon abstract interpretation over reconstructed MIR terms; who-may-construct invariant establishment", "5/C17")
+claim("C04", "Completeness identities for establish and pay (verifier acceptance of the honest provers' output terms normalises to TRUE under a library-generated merchant configuration), exact ledger step, clean refusal, and discharge of every input-dependent panic obligation on the honest prover path.",
+      "Decides per-step facts for all inputs; histories follow by induction. Pay completeness uses the ledger hypothesis established by rule `ledger` + C17 and the digit-decomposition lemma (recorded). Not decided: RNG liveness.",
+      "MIR value reconstruction + normal-form identities (completeness), interval/octagon discharge of panic obligations", "5/C04")
+claim("C06", "Every component of both verification tuples reaches the Fiat-Shamir hash or an atom of the exact acceptance relation; Context hashes its whole input; the close check covers every close-state field.",
+      "Decides the structural necessary condition (dependency of acceptance on every tuple component, in the way the relation says). Not decided: the probabilistic rejection itself (2^-255 slack).",
+      "transcript reconstruction (must-reach-sink) + exact-relation membership", "5/C06")
+claim("C10", "R_resp wiring of the provers, completeness of all four proof kinds as normal-form identities (symbolic messages, lengths, value), identical builder/proof transcripts, documented patterns as polynomial identities of the response term.",
+      "Decides: verify(honest proof) == TRUE (side condition: randomisers != 0), same challenge by transcript identity. Uses the recorded digit-decomposition lemma.",
+      "MIR value reconstruction + polynomial/bilinear normal-form identities", "5/C10")
+claim("C14", "Every atom of every customer message (wire-form enumeration) is a documented disclosure or masked by randomness drawn in the same call, independent of the masked secret; signatures are re-randomised before being shown; secrets never appear verbatim.",
+      "Decides necessary structural conditions only. NOT decided: inequality of run-time values across sessions, hiding, zero knowledge, unlinkability.",
+      "field-sensitive provenance over reconstructed terms (freshness / masking positions), who-may-construct", "5/C14")
+claim("C15", "Wire models (writer sequence, reader sequence, codec per field, try_from proxies) extracted from derive-generated and hand-written serde MIR; writer == reader; checked/unchecked twins agree; every invariant type decodes only through a validator whose Ok condition equals the invariant table; only checked leaf decoders on decode paths.",
+      "Decides codec symmetry and decode-time invariants for all inputs. Trusts bls12_381's checked decoders and bincode/serde framing.",
+      "sibling-agreement analysis of serializer/deserializer MIR + validator exactness by term normal forms", "5/C15")
+claim("C16", "Crate-local call-graph closure of all decode entry points: every panic source is a discharged obligation, every allocation sink has a constant / const-generic / min-bounded size, no length-prefixed std collections in wire types.",
+      "Decides the crate-local part only. NOT decided: panics/allocations inside bincode, serde, serde_big_array, bls12_381, sha3, base64 (outside the analysed program).",
+      "call-graph reachability + obligation discharge + taint of allocation sizes", "5/C16")
+claim("C18", "Nonce != close tag established at the single construction site for every randomness stream; layouts differ exactly in the nonce/close-tag slot; ChannelId::new binds all five inputs deterministically.",
+      "Decides the invariant and layout facts. Not decided: collision resistance; the 1/q slack of cross-layout verification.",
+      "invariant establishment (who-may-construct + guards on all paths) + transcript reconstruction", "5/C18")
+claim("C19", "Generators return only guarded values on every path (rejection loops summarised as value-such-that-guard), key-generation wiring equals R_keygen, decode-time validators accept generated values identically.",
+      "Decides well-formedness for every randomness stream (guards hold on all paths). Not decided: loop termination, uniformity.",
+      "guard/dominance facts over reconstructed terms with loop summaries + validator identities", "5/C19")
+claim("C20", "Storage of customer stages loses nothing (complete symmetric codecs over the stored type closure), refuses nothing legitimate (generators imply validators), and stage methods read no hidden state.",
+      "Decides structural necessary conditions. NOT decided: byte-identical continuation as an executed fact.",
+      "sibling-agreement of codec MIR over the stored-type closure + call-graph scan for hidden state", "5/C20")
